@@ -260,6 +260,48 @@ def enhex(s):
     return s.encode("latin-1").hex() if s else "-"
 
 
+ALL_CREATE_OPS = ("head", "rule", "ruleq", "headt", "rulet")      # ..t = through create_throw
+LEADNUM = re.compile(r"[+-]?[0-9]+")
+
+
+def lenient_normalise(pfx, shape, name):
+    """the name with every numeric token cut after its leading integer (what `istream >> int` reads); None if the
+    name has no such token.  Only used to separate the known 'trailing garbage' class from everything else."""
+    low = [p.strip(WS).lower() for p in name.split(":")]
+    out = []
+    i = 0
+    if len(low) >= 2:
+        hh = low[0].split("*", 1)
+        if hh[0].strip(WS) == "refine":
+            if len(hh) == 2:
+                m = LEADNUM.match(hh[1].strip(WS))
+                if not m:
+                    return None
+                k = int(m.group(0))
+                out.append("refine*%d" % (k if k >= 0 else k + 2 ** 64))
+            else:
+                out.append("refine")
+            i = 1
+    rest = low[i:]
+    if len(rest) < 2:
+        return ":".join(out + rest) if (out and rest) else None
+    if rest[0] == "auto-degree":
+        if len(rest) != 2:
+            return None
+        m = LEADNUM.match(rest[1])
+        if not m:
+            return None
+        d = int(m.group(0))
+        return ":".join(out + ["auto-degree", str(d if d >= 0 else d + 2 ** 64)])
+    if pfx and rest[0] in ("tensor", "scalar") and len(rest) >= 3:
+        out.append(rest[0])
+        rest = rest[1:]
+    m = LEADNUM.match(":".join(rest[1:]).strip(WS))
+    if not m:
+        return None
+    return ":".join(out + [rest[0], m.group(0)])
+
+
 # ---------------------------------------------------------------------------------------------
 # oracle
 # ---------------------------------------------------------------------------------------------
@@ -268,7 +310,7 @@ def oracle(case, out):
     t = case.split()
     op = t[0]
     try:
-        if op in ("head", "rule", "ruleq"):
+        if op in ALL_CREATE_OPS:
             pfx, shape, name = int(t[1]), t[2], unhex(t[3])
             if is_abnormal(out):
                 return "crash: create(%r) for %s ended with %s instead of refusing" % (name, shape, out)
@@ -280,7 +322,25 @@ def oracle(case, out):
             o = out.split()
             rname, npts = o[1], int(o[2])
             if spec is None:
-                return "lenient: %r is not a rule name for %s but is answered with rule %s" % (name, shape, rname)
+                # the only tolerated (known, open) class: a numeric token followed by garbage is read as its leading
+                # integer -- and then the answer must at least be the rule of the name so normalised
+                norm = lenient_normalise(pfx, shape, name)
+                nspec = spec_parse(pfx, shape, norm) if norm is not None else None
+                if nspec is not None and nspec["kind"] == "base":
+                    if rname != refined_name(nspec["base"], nspec["k"]):
+                        return "wrong-rule: %r answered with rule %s, not even the rule of %r" % (name, rname, norm)
+                    return "lenient: %r is not a rule name for %s but is answered with rule %s" % (name, shape, rname)
+                if nspec is not None:
+                    return "lenient: %r is not a rule name for %s but is answered with rule %s" % (name, shape, rname)
+                extra = ""
+                if op in ("rule", "ruleq", "rulet"):
+                    try:
+                        _, w, x = parse_rule(out, DIM[shape])
+                        extra = "; its weights sum to %s instead of %s" % (float(sum(w)), float(ref_integral(SIMPLEX[shape], [0] * DIM[shape])))
+                    except Exception as e:
+                        extra = "; rule data unreadable (%s)" % e
+                return "refused-invalid: %r is not a rule name for %s (unknown driver, or point count outside the " \
+                       "advertised range) but is answered with rule %s of %d points%s" % (name, shape, rname, npts, extra)
             rspec = spec
             if spec["kind"] == "auto":
                 # the chosen rule is the implementation's business; it must be a known rule ...
@@ -299,7 +359,7 @@ def oracle(case, out):
                 return "wrong-rule: %r answered with rule %s, expected %s" % (name, rname, exp_name)
             if npts != exp_pts:
                 return "wrong-count: rule %s has %d points, expected %d" % (rname, npts, exp_pts)
-            if op == "head":
+            if op in ("head", "headt"):
                 return None
             _, w, x = parse_rule(out, DIM[shape])
             if len(w) != npts:
@@ -393,7 +453,7 @@ def canon(out):
 
 def model_filter(case):
     t = case.split()
-    if t[0] == "rule":
+    if t[0] in ("rule", "rulet"):
         spec = spec_parse(int(t[1]), t[2], unhex(t[3]))
         if spec is None:
             return True
@@ -417,7 +477,7 @@ Q_EXACT = ("gauss-legendre", "dunavant", "shunn-ham")     # drivers whose tables
 
 def nontrivial(case):
     t = case.split()
-    if t[0] in ("head",):
+    if t[0] in ("head", "headt"):
         name = unhex(t[3])
         return name != name.strip().lower() or name.count(":") >= 2 or "refine" in name.lower() or \
             spec_parse(int(t[1]), t[2], name) is None
@@ -431,13 +491,16 @@ def nontrivial(case):
 def describe(case):
     t = case.split()
     keys = ["op:" + t[0]]
-    if t[0] in ("head", "rule", "ruleq"):
+    if t[0] in ALL_CREATE_OPS:
         name = unhex(t[3])
         spec = spec_parse(int(t[1]), t[2], name)
         keys.append("shape:" + t[2])
         keys.append("pfx:" + t[1])
         if spec is None:
             keys.append("class:not-a-name")
+            m = re.match(r"(?:refine[^:]*:)?(?:tensor:|scalar:)?([a-z0-9-]+):(-?[0-9]+)\Z", name)
+            if m and m.group(1) in shape_drivers(t[2]):
+                keys.append("out-of-range:" + m.group(1))
         else:
             keys.append("class:valid" + ("+ws" if has_ws(name) else ""))
             keys.append("refines:%d" % spec["k"])
@@ -670,6 +733,38 @@ def gen_exactq_cases(rng, count, max_pts):
     return cases
 
 
+RANGE_PARAMS = lambda lo, hi: [0, 1, lo - 2, lo - 1, hi + 1, hi + 2, hi + 10, 100, 4294967297]
+
+
+def gen_range_cases(factories, pfx):
+    """DETERMINISTIC sweep of the neighbourhood of every factory's advertised point-count range: every factory the
+    dump enumerates for every shape x the parameters above x {plain, refine:, refine*2:} x {with, without} the
+    tensor:/scalar: head x {create, create_throw}; full rule output, so that an accepted name is also judged."""
+    cases = []
+    for shape in SHAPES:
+        for f in factories[shape]:
+            lo, hi = f["min"], f["max"]
+            params = RANGE_PARAMS(lo, hi)
+            # ... and around the range the specification advertises (they differ if the code's range drifts)
+            sd = shape_drivers(shape).get(f["name"])
+            if sd is not None and sd[0]:
+                params = params + RANGE_PARAMS(sd[1], sd[2])
+            seen = []
+            for n in params:
+                if n in seen:
+                    continue
+                seen.append(n)
+                core = "%s:%d" % (f["name"], n)
+                cores = [core]
+                if f["kind"] in ("tensor", "scalar"):
+                    cores.append(f["kind"] + ":" + core)
+                for c in cores:
+                    for pre in ("", "refine:", "refine*2:"):
+                        for op in ("rule", "rulet"):
+                            cases.append("%s %d %s %s" % (op, pfx, shape, enhex(pre + c)))
+    return cases
+
+
 CORPUS = {
     "names0": [
         "head 0 h2 " + enhex("gauss-legendre:3:junk"),
@@ -718,7 +813,8 @@ def regenerate_tables():
     shapes, changed = cubature_gen.generate(r.stdout, os.path.join(vlib.LEAN_DIR, "FeatModel", "Gen"))
     return {"tables": {t: len(s["rules"]) for t, s in shapes.items()},
             "points": sum(len(rl["w"]) for s in shapes.values() for rl in s["rules"]),
-            "regenerated_files": [os.path.basename(c) for c in changed]}, ""
+            "regenerated_files": [os.path.basename(c) for c in changed],
+            "_factories": {t: s["factories"] for t, s in shapes.items()}}, ""
 
 
 def main(argv):
@@ -731,6 +827,7 @@ def main(argv):
         v = [{"property": PROP, "kind": "translator-failure", "detail": err, "failing_input": None,
               "broken": "translate/cubature_dump.cpp does not build/run against the current tree"}]
         return vlib.finish(PROP, args.tier, args.seed, t0, None, [], [], v, [])
+    factories = gen_info.pop("_factories")
     vlib.log("[c14] tables regenerated: %s" % gen_info)
     lean = None if args.no_lean else vlib.lean_check(PROP, leanchecker=(args.tier == "thorough"))
     src = os.path.join(vlib.VERIF, "harness", "c14", "main.cpp")
@@ -750,7 +847,8 @@ def main(argv):
         rep = json.load(open(args.replay))
         case = rep["input"]
         t = case.split()
-        key = "chk" if rep.get("stream") == "assert-build" else ("p1" if t[0] in ("head", "rule", "ruleq", "auto") and t[1] == "1" else "p0")
+        key = "chk" if rep.get("stream") == "assert-build" else (
+            "p1" if t[0] in ALL_CREATE_OPS + ("auto",) and t[1] == "1" else "p0")
         streams = [vlib.Stream(rep.get("stream", "replay"), [case], [bins[key]], drv,
                                **common)]
     else:
@@ -761,12 +859,17 @@ def main(argv):
             vlib.Stream("names1", gen_name_cases(rng, 1, n_names // 2) + gen_table_cases(1, 30), [bins["p1"]], drv, **common),
             vlib.Stream("exactq", gen_exactq_cases(rng, 120 if quick else 2500, 700 if quick else 3000), [bins["p0"]], drv, **common),
             vlib.Stream("transform", gen_transform_cases(rng, 400 if quick else 15000), [bins["p0"]], drv, **common),
+            vlib.Stream("ranges", gen_range_cases(factories, 0), [bins["p0"]], drv, **common),
+            vlib.Stream("ranges.pfx", gen_range_cases(factories, 1), [bins["p1"]], drv, **common),
             vlib.Stream("assert-build", ASSERT_BUILD + gen_name_cases(rng, 0, 200 if quick else 2000), [bins["chk"]], drv, **common),
         ]
     rule = ("tables: every canonical name, alias and auto-degree:0..max+2 of the six shapes through the full rule at "
             "double, all monomials up to the nominal degree (Fraction arithmetic, tol 2^-40), compared with the "
             "generated Lean table; names: seeded valid/perturbed names (case, whitespace, aliases, refine*k, "
-            "auto-degree, out-of-range counts, junk suffixes, wrong shape, typos) in both prefix configurations; exactq: "
+            "auto-degree, out-of-range counts, junk suffixes, wrong shape, typos) in both prefix configurations; ranges: "
+            "deterministic sweep (every factory of the dump x n in {0,1,min-2,min-1,max+1,max+2,max+10,100,2^32+1} x "
+            "{plain, refine:, refine*2:} x {with, without tensor:/scalar:} x {create, create_throw}, both "
+            "configurations), an accepted name is a 'refused-invalid' violation; exactq: "
             "refine*k of real rules at Q; transform: refine/tensor/simplex-scalar of random dyadic rules at Q; "
             "non-trivial = not a plain lower-case canonical name (names), every rule/transform case")
     return vlib.run_pipeline(PROP, args.tier, args.seed, lean, streams, t0, assumptions=[
